@@ -470,6 +470,9 @@ func (c *SshCorpusT) Len() int {
 	return c.n
 }
 
+// PrefixLen is the number of each-choice cases at the start of the list.
+func (c *SshCorpusT) PrefixLen() int { return len(c.prefix) }
+
 func (c *SshCorpusT) At(i int) SshCase {
 	if i < len(c.prefix) {
 		return c.prefix[i]
